@@ -139,12 +139,12 @@ pub trait ZvtSerializerImpl<
 
     // N15: the default bodies of the two methods are verified where they are inherited
     // (materialised into every impl that does not override them); the trait only declares them.
-    //@ fn src:zvt_builder/src/lib.rs | trait ZvtSerializerImpl | serialize_tagged | sig dropbody
+    //@ fn src:zvt_builder/src/lib.rs | trait ZvtSerializerImpl | serialize_tagged | sig dropbody props=C03,C01
     //@ tag st.ser.exact C03 C01
         requires self.ser_pre(tag),
         ensures r@ =~= self.spec_ser_tagged(tag),
     //@ end
-    //@ fn src:zvt_builder/src/lib.rs | trait ZvtSerializerImpl | deserialize_tagged | sig dropbody props=C02
+    //@ fn src:zvt_builder/src/lib.rs | trait ZvtSerializerImpl | deserialize_tagged | sig dropbody props=C02,C14
         requires Self::deser_pre(tag),
         ensures
     //@ tag st.deser.defined C01 C02
@@ -177,9 +177,9 @@ where
             None => if T::deser_defined(b, None) { v matches Some(i) && T::deser_ok(b, None, i, k) } else { v is None && k == 0 },
         }
     }
-    //@ fn src:zvt_builder/src/lib.rs | impl ZvtSerializerImpl<L,E,TE> for Option<T> | serialize_tagged
+    //@ fn src:zvt_builder/src/lib.rs | impl ZvtSerializerImpl<L,E,TE> for Option<T> | serialize_tagged | props=C03,C01
     //@ end
-    //@ fn src:zvt_builder/src/lib.rs | impl ZvtSerializerImpl<L,E,TE> for Option<T> | deserialize_tagged | props=C02
+    //@ fn src:zvt_builder/src/lib.rs | impl ZvtSerializerImpl<L,E,TE> for Option<T> | deserialize_tagged | props=C02,C14
     //@ end
 }
 
@@ -203,9 +203,9 @@ where
     /// element content is not specified at this level (see DESIGN.md: Vec combinator, partial)
     open spec fn deser_ok(b: Seq<u8>, tag: Option<Tag>, v: Self, k: int) -> bool { true }
     // iterator adapters (flat_map/collect): trusted shell
-    //@ fn src:zvt_builder/src/lib.rs | impl ZvtSerializerImpl<L,E,TE> for Vec<T> | serialize_tagged | ext
+    //@ fn src:zvt_builder/src/lib.rs | impl ZvtSerializerImpl<L,E,TE> for Vec<T> | serialize_tagged | ext props=C03,C01
     //@ end
-    //@ fn src:zvt_builder/src/lib.rs | impl ZvtSerializerImpl<L,E,TE> for Vec<T> | deserialize_tagged | all-loops props=C02
+    //@ fn src:zvt_builder/src/lib.rs | impl ZvtSerializerImpl<L,E,TE> for Vec<T> | deserialize_tagged | all-loops props=C02,C14
     //@ loop 0
             invariant
                 T::deser_pre(tag), T::deser_progresses(tag),
@@ -230,12 +230,12 @@ where
     spec fn zd_pre() -> bool;
     spec fn zd_defined(b: Seq<u8>) -> bool;
     spec fn zd_ok(b: Seq<u8>, v: Self, k: int) -> bool;
-    //@ fn src:zvt_builder/src/lib.rs | trait ZvtSerializer | zvt_serialize | sig dropbody
+    //@ fn src:zvt_builder/src/lib.rs | trait ZvtSerializer | zvt_serialize | sig dropbody props=C03
     //@ tag zs.exact C03 C01
         requires self.zs_pre(),
         ensures r@ =~= self.zs_spec(),
     //@ end
-    //@ fn src:zvt_builder/src/lib.rs | trait ZvtSerializer | zvt_deserialize | sig dropbody props=C02
+    //@ fn src:zvt_builder/src/lib.rs | trait ZvtSerializer | zvt_deserialize | sig dropbody props=C02,C14
         requires Self::zd_pre(),
         ensures
     //@ tag zd.defined C01 C02
@@ -270,9 +270,9 @@ where
     open spec fn zd_ok(b: Seq<u8>, v: Self, k: int) -> bool {
         <Self as ZvtSerializerImpl<length::Adpu, encoding::Default, encoding::BigEndian>>::deser_ok(b, Some(ctrl_tag(Self::CLASS, Self::INSTR)), v, k)
     }
-    //@ fn src:zvt_builder/src/lib.rs | impl ZvtSerializer for T | zvt_serialize
+    //@ fn src:zvt_builder/src/lib.rs | impl ZvtSerializer for T | zvt_serialize | props=C03
     //@ end
-    //@ fn src:zvt_builder/src/lib.rs | impl ZvtSerializer for T | zvt_deserialize | props=C02
+    //@ fn src:zvt_builder/src/lib.rs | impl ZvtSerializer for T | zvt_deserialize | props=C02,C14
     //@ end
 }
 
